@@ -46,10 +46,12 @@ class shapefactor_builder:
         moddata = self.collect(thismod, nom)
         self.builder_data[key][sample]['data']['mask'] += moddata['mask']
         if thismod:
-            self.required_parsets.setdefault(
-                thismod['name'],
-                [required_parset(defined_samp['data'], thismod['data'])],
-            )
+            # every declaration contributes its requirement: a shapefactor shared between
+            # channels with different bin counts is then refused as a conflicting name reuse
+            parset = required_parset(defined_samp['data'], thismod['data'])
+            reqs = self.required_parsets.setdefault(thismod['name'], [])
+            if parset not in reqs:
+                reqs.append(parset)
 
     def finalize(self):
         return self.builder_data
